@@ -147,6 +147,8 @@ def run_group(g, scratch, tree):
         text = text.replace("@SRC@", src).replace("@UNITY@", unity)
         for k, v in g.subst.items():
             text = text.replace("@%s@" % k, str(v))
+        # the ghost input log (vh.h) is written by every stub that draws a symbolic value
+        text = re.sub(r'("assigns"\s*:\s*")', r'\1g_nd_n, __CPROVER_object_whole(g_nd_log), ', text)
         if "@L:" in text:
             rc, so, se, _ = sh(["goto-instrument", "--show-symbol-table", d_gb], timeout=300)
             syms = re.findall(r"^Symbol\.+: (\S.*)$", so, re.M)
@@ -283,16 +285,31 @@ def load_known():
 
 
 def extract_inputs(trace):
-    """Nondet inputs of a counterexample trace, in program order."""
-    vals = []
+    """Symbolic inputs of a counterexample in program order, read from the ghost log of vh.h:
+    every nondet_T() stores its value in g_nd_log[g_nd_n] and then increments g_nd_n.  A log that
+    does not grow by exactly one each time (loop-contract havoc) is not an input-level trace."""
+    last = {}
+    out = []
     for st in trace or []:
-        if st.get("stepType") != "assignment":
+        if st.get("stepType") != "assignment" or st.get("hidden"):
             continue
         lhs = st.get("lhs", "")
-        if "return_value_nondet" in lhs or lhs.startswith("nondet") :
-            v = st.get("value", {})
-            vals.append({"lhs": lhs, "value": v.get("data", v.get("name"))})
-    return vals
+        v = st.get("value", {})
+        m = re.match(r"g_nd_log\[(\d+)", lhs)
+        if m:
+            last[int(m.group(1))] = v.get("data", v.get("name"))
+        elif lhs == "g_nd_n":
+            try:
+                n = int(re.sub(r"[uUlL]+$", "", str(v.get("data"))))
+            except ValueError:
+                return []
+            if n != len(out) + 1:
+                return []
+            if n - 1 < 96:
+                if (n - 1) not in last:
+                    return []
+                out.append({"index": n - 1, "value": last[n - 1]})
+    return out
 
 
 def run_check(prop_id, groups, tier, level, trusted=(), assumptions=(), explanation="", replay_hook=None,
@@ -439,9 +456,13 @@ def finish(prop_id, sel, results, tier, seed, level, trusted, assumptions, expla
                 "location": {"file": p["file"], "line": p["line"], "function": p["function"], "source": p.get("src", "")},
                 "nondet_inputs": inputs, "group": v["group"]}
         reproduced = False
-        if replay_hook and inputs:
+        if inputs and not os.environ.get("VERIF_NO_REPLAY"):
             try:
-                rr = replay_hook(gmap[v["group"]], v, inputs, scratch)
+                if replay_hook:
+                    rr = replay_hook(gmap[v["group"]], v, inputs, scratch)
+                else:
+                    import replay as _rp
+                    rr = _rp.native_replay(gmap[v["group"]], p["desc"], inputs, os.path.join(scratch, "replay_" + h))
                 if rr:
                     info["native_replay"] = rr
                     reproduced = bool(rr.get("reproduced"))
